@@ -13,7 +13,7 @@ import teneva
 class ANOVA_func:
     def __init__(self, X_trn, y_trn, n, a=-1., b=+1., lamb=1.E-7):
         self.X_trn = teneva.poi_scale(X_trn, a, b, kind='cheb')
-        self.y_trn = np.asarray(y_trn, dtype=float)
+        self.y_trn = np.array(y_trn, dtype=float)
         self.lamb = lamb
         self._cfs = None
         self.d = self.X_trn.shape[1]
